@@ -858,3 +858,45 @@ package eval
 //@     assert [C06,C07] ns: 0 <= rangeindex1 && rangeindex1 < len(selectors) && podNs == (if selectors[rangeindex1].NsSelector == nil then policyNs else "")
 //@   loop 1:
 //@     invariant inv: repPeersOK(pe) && pe.representativePeersMap != nil
+
+// ---------------------------------------------------------------------------------------------
+// Workload -> pod conversion (C17, C03, C01): the verdict for a workload is computed on THE pod the workload peer holds, in
+// the namespace object stored under that pod's namespace; for a workload paired with itself the destination may be replaced
+// by another pod of the same namespace and owner (never by a pod of another workload)
+// ---------------------------------------------------------------------------------------------
+//@ func (*PolicyEngine).getPeerNamespaceObject
+//@   requires pe != nil && podObj != nil
+//@   ensures [C17,C01] stored: res1 == nil ==> ((podObj.Namespace == "" && podObj.FakePod && podObj.Name == "representative-pod" && res0 == nil)
+//@         || (pe.namespacesMap != nil && podObj.Namespace in pe.namespacesMap && res0 == pe.namespacesMap[podObj.Namespace]))
+//@   ensures [C17,C12] missing: (res1 != nil) == (!(podObj.Namespace == "" && podObj.FakePod && podObj.Name == "representative-pod") && !(pe.namespacesMap != nil && podObj.Namespace in pe.namespacesMap))
+
+//@ func (*PolicyEngine).convertPeerToPodPeer
+//@   requires pe != nil && peer != nil && (dyntype(peer, *k8s.WorkloadPeer) ==> (unwrap(peer, *k8s.WorkloadPeer) != nil && unwrap(peer, *k8s.WorkloadPeer).Pod != nil))
+//@   requires (dyntype(peer, *k8s.PodPeer) ==> (unwrap(peer, *k8s.PodPeer) != nil && unwrap(peer, *k8s.PodPeer).Pod != nil)) && (dyntype(peer, *k8s.IPBlockPeer) ==> (unwrap(peer, *k8s.IPBlockPeer) != nil && unwrap(peer, *k8s.IPBlockPeer).IPBlock != nil))
+//@   ensures [C17,C03,C01] same: res1 == nil ==> (res0 != nil && fresh(res0) && dyntype(peer, *k8s.WorkloadPeer) && res0.Pod == unwrap(peer, *k8s.WorkloadPeer).Pod
+//@         && ((res0.Pod.Namespace == "" && res0.Pod.FakePod && res0.Pod.Name == "representative-pod" && res0.NamespaceObject == nil)
+//@            || (pe.namespacesMap != nil && res0.Pod.Namespace in pe.namespacesMap && res0.NamespaceObject == pe.namespacesMap[res0.Pod.Namespace])))
+//@   ensures [C12] other: !dyntype(peer, *k8s.WorkloadPeer) ==> res1 != nil
+
+//@ func (*PolicyEngine).changePodPeerToAnotherPodObject
+//@   requires pe != nil && peer != nil && peer.Pod != nil && (forall k string :: {k in pe.podsMap} k in pe.podsMap ==> pe.podsMap[k] != nil)
+//@   modifies peer.Pod
+//@   ensures [C17] sameworkload: peer.Pod == old(peer.Pod) || (peer.Pod != nil && peer.Pod.Namespace == old(peer.Pod.Namespace) && peer.Pod.Owner.Name == old(peer.Pod.Owner.Name) && peer.Pod.Name != old(peer.Pod.Name)
+//@         && (exists k string :: {k in pe.podsMap} k in pe.podsMap && pe.podsMap[k] == peer.Pod))
+//@   ensures [C17] found: (pe.podsMap != nil && exists k string :: {k in pe.podsMap} k in pe.podsMap && pe.podsMap[k].Namespace == old(peer.Pod.Namespace) && pe.podsMap[k].Name != old(peer.Pod.Name) && pe.podsMap[k].Owner.Name == old(peer.Pod.Owner.Name))
+//@         ==> peer.Pod != old(peer.Pod)
+//@   loop 1:
+//@     invariant same: peer.Pod == pre(peer.Pod)
+//@     invariant none: forall k string :: {seen(k)} seen(k) ==> !(pe.podsMap[k].Namespace == peer.Pod.Namespace && pe.podsMap[k].Name != peer.Pod.Name && pe.podsMap[k].Owner.Name == peer.Pod.Owner.Name)
+
+//@ func (*PolicyEngine).AllAllowedConnectionsBetweenWorkloadPeers
+//@   nosafety
+//@   requires pe != nil
+//@   modifies *
+//@   before call 4:
+//@     assert [C03,C01] ipsrc: dstPodPeer.Pod == unwrap(dstPeer, *k8s.WorkloadPeer).Pod
+//@   before call 8:
+//@     assert [C03,C01] ipdst: srcPodPeer.Pod == unwrap(srcPeer, *k8s.WorkloadPeer).Pod
+//@   before call 16:
+//@     assert [C17,C03,C01] pods: srcPodPeer.Pod == unwrap(srcPeer, *k8s.WorkloadPeer).Pod
+//@         && (dstPodPeer.Pod == unwrap(dstPeer, *k8s.WorkloadPeer).Pod || (dstPodPeer.Pod.Namespace == unwrap(dstPeer, *k8s.WorkloadPeer).Pod.Namespace && dstPodPeer.Pod.Owner.Name == unwrap(dstPeer, *k8s.WorkloadPeer).Pod.Owner.Name))
